@@ -311,6 +311,10 @@ func TestConstructed(t *testing.T) {
 			}
 		}
 		want := renderBlocks(blocks, false)
+		if notLinkCount > 0 {
+			kit.R.ClassN("spelling:link-look-alike", int64(notLinkCount))
+			notLinkCount = 0
+		}
 		if emptyItemCount > 0 {
 			kit.R.ClassN("construct:empty-list-item", int64(emptyItemCount))
 			emptyItemCount = 0
